@@ -125,9 +125,13 @@ def build_project(cases, subscriptions=False, only_ops=None):
         ops.append(f"query OpRN_{k} {{ res {{ pad child {{ r_{k} }} }} }}")
         ops.append(f"query OpRF_{k} {{ res {{ ...FR_{k} }} }}")
         ops.append(f"fragment FR_{k} on RT {{ r_{k} }}")
+        ops.append(f"query OpRU_{k} {{ resU {{ __typename ... on RT {{ r_{k} }} ... on RT2 {{ r_{k} }} }} }}")
     if rfields:
         sdl.append("type RT {\n  pad: Int\n  child: RT\n" + "\n".join(rfields) + "\n}")
+        sdl.append("type RT2 {\n  pad: Int\n" + "\n".join(rfields) + "\n}")
+        sdl.append("union RU = RT | RT2")
         qfields.append("  res: RT")
+        qfields.append("  resU: [RU]")
     sdl.append("type Query {\n" + "\n".join(qfields) + "\n}")
     if sfields:
         sdl.append("type Subscription {\n" + "\n".join(sfields) + "\n}")
